@@ -805,6 +805,53 @@ pub fn make_case(r: &mut Sm, idx: usize, prop: StepProp, depth_exhaustive: Optio
     StepCase { problem, params, letters, script, step_from, resetup }
 }
 
+/// A tree that winds once around a finite wall (over the top, down the far side, back underneath)
+/// and then receives a sample right next to the wall: its nearest node is the expensive end of
+/// the spiral, a cheaper neighbour sits just behind the wall (its motion is blocked) and the
+/// cheapest one is a young child of the start. Random scripts practically never build this;
+/// it exercises choose-parent / rewire when cheaper candidates are blocked and rewiring would
+/// shortcut through the wall. Variants: mirrored, axes swapped, scaled, shifted, jittered.
+pub fn spiral_case(r: &mut Sm, variant: usize, kind: PKind) -> StepCase {
+    use crate::spec::{Spec, Wrap, CK};
+    use crate::world::{GoalMode, GoalSpec, Prim, World};
+    let (mx, my, swap) = (variant & 1 == 1, variant & 2 == 2, variant & 4 == 4);
+    let s = [1.0, 1.0, 1e-3, 250.0][(variant / 8) % 4];
+    let jitter = if variant / 32 == 0 { 0.0 } else { 0.04 };
+    let (ox, oy) = if variant / 8 % 2 == 1 { (r.range(-3.0, 3.0), r.range(-3.0, 3.0)) } else { (0.0, 0.0) };
+    // base layout: box [0,10] x [-5,5], wall x in [4.8,5.2], y in [-1,3]
+    let tf = |x: f64, y: f64| -> Vec<f64> {
+        let x = if mx { 10.0 - x } else { x };
+        let y = if my { 2.0 - y } else { y };
+        let (x, y) = ((x + ox) * s, (y + oy) * s);
+        if swap { vec![y, x] } else { vec![x, y] }
+    };
+    let base = [(4.0, 4.0), (6.0, 4.0), (6.0, 2.0), (5.6, 0.6), (5.8, -1.5), (4.4, -1.6), (4.4, -0.4), (3.2, 0.6), (4.5, 0.5), (7.5, 0.6)];
+    let mut letters: Vec<Vec<f64>> = base.iter().map(|(x, y)| tf(x + jitter * r.range(-1.0, 1.0), y + jitter * r.range(-1.0, 1.0))).collect();
+    // a few more samples afterwards keep the planner busy around the wall
+    for _ in 0..6 {
+        letters.push(tf(r.range(3.0, 7.0), r.range(-2.5, 4.5)));
+    }
+    let corner = |x: f64, y: f64| tf(x, y);
+    let (a, c) = (corner(0.0, -5.0), corner(10.0, 5.0));
+    let (w0, w1) = (corner(4.8, -1.0), corner(5.2, 3.0));
+    let (xi, yi) = if swap { (1usize, 0usize) } else { (0, 1) };
+    let bounds = {
+        let mut bnd = vec![(0.0, 0.0); 2];
+        bnd[xi] = (a[xi].min(c[xi]), a[xi].max(c[xi]));
+        bnd[yi] = (a[yi].min(c[yi]), a[yi].max(c[yi]));
+        bnd
+    };
+    let spec = Spec::plain(Wrap::R, CK::R { n: 2, bounds: Some(bounds.clone()) }, Some(0.01));
+    // the wall: a slab in x with two gaps in y (everything below and above the wall is free)
+    let (ylo, yhi) = (w0[yi].min(w1[yi]), w0[yi].max(w1[yi]));
+    let wall = Prim::Slab { idx: xi, lo: w0[xi].min(w1[xi]), hi: w0[xi].max(w1[xi]), gaps: vec![(yi, -1e300, ylo - 1e-9 * s), (yi, yhi + 1e-9 * s, 1e300)] };
+    let goal = GoalSpec { centre: letters[9].clone(), radius: 0.3 * s, mode: GoalMode::Centre, fail_at: None, window: None };
+    let problem = Problem { spec, world: World { prims: vec![wall] }, start: tf(2.0, 0.0), extra_starts: vec![], goal, infeasible: None, tags: vec!["spiral-around-a-wall".into()] };
+    let params = PParams { kind, max_distance: 5.0 * s, goal_bias: 0.0, search_radius: 1.5 * s, connection_radius: 1.5 * s, seed: Some(3 + variant as u64) };
+    let script = (0..letters.len()).collect();
+    StepCase { problem, params, letters, script, step_from: None, resetup: None }
+}
+
 pub fn run_case(prop: StepProp, ctx: &Ctx, b: &mut Batch, case: &StepCase) {
     let mut owned = case.clone();
     // C15, now and then: the problem lists further start states (valid ones, and ones deep or
@@ -858,6 +905,20 @@ pub fn run(prop: StepProp, tier: Tier, seed: u64) -> i32 {
                 with_kit!(case.problem.spec, K, kit => batch_case::<K>(prop, &ctx, &mut b, &kit, &case));
             }
             i += shards;
+        }
+        // hand-shaped worlds: a tree that spirals around a wall (see `spiral_case`)
+        let mut v = sh;
+        while v < 64 {
+            let mut r = Sm::derive(seed, &[prop as u64 + 170, v as u64]);
+            let kind = match prop {
+                StepProp::C17 => PKind::Star,
+                _ => [PKind::Star, PKind::Rrt, PKind::Star, PKind::Connect][(v / 8) % 4],
+            };
+            let case = spiral_case(&mut r, v, kind);
+            run_case(prop, &ctx, &mut b, &case);
+            with_kit!(case.problem.spec, K, kit => batch_case::<K>(prop, &ctx, &mut b, &kit, &case));
+            b.count("spiral_cases", 1);
+            v += shards;
         }
         // exhaustive depth-<=4 scripts over a 6-letter alphabet on a few worlds
         let mut w = sh;
